@@ -355,16 +355,16 @@ func runFlags(c *hx.Ctx) {
 			cnt(shape, 40)
 		}
 	}
-	// 3 threads x 2 ops: with CAS retries a complete enumeration is 10^7 schedules; thorough runs the first 100000 in
-	// depth-first order (all orders of the last ~10 steps below a fixed prefix) and 20000 random ones
+	// 3 threads x 2 ops: with CAS retries a complete enumeration is 10^7 schedules; thorough runs the first 70000 in
+	// depth-first order (all orders of the last ~10 steps below a fixed prefix) and 15000 random ones
 	if c.Thorough() {
 		var th [][]flagOp
 		for t := 0; t < 3; t++ {
 			th = append(th, []flagOp{three[c.Rng.Intn(len(three))], three[c.Rng.Intn(len(three))]})
 		}
 		init := uint64(c.Rng.Intn(8))
-		cnt([]int{2, 2, 2}, r.explore(c, init, th, 100000))
-		r.randomSchedules(c, init, th, 20000)
-		cnt([]int{2, 2, 2}, 20000)
+		cnt([]int{2, 2, 2}, r.explore(c, init, th, 70000))
+		r.randomSchedules(c, init, th, 15000)
+		cnt([]int{2, 2, 2}, 15000)
 	}
 }
